@@ -6,6 +6,8 @@
 // encodings, from each of the two clients on each registered client-to-server channel
 // (mutation acks, the protocol-hash trigger, a plain event, an event and a trigger that carry entities). Checked:
 //   P  `App::update` never panics, whatever was received;
+//   F  valid events / triggers sent IN THE SAME FRAME on the same channel by another authorized client (one queued before,
+//      one after the garbage) are all delivered to the server's game logic (a malformed message is discarded - nothing else);
 //   S  afterwards the server still serves: an entity spawned after the garbage reaches the authorized client intact.
 // Messages are delivered 256 per frame; when a frame panics each of its messages is re-run alone in a fresh server to name
 // the failing input.
@@ -33,6 +35,20 @@ mod verif_search_r {
     #[derive(Event, Serialize, Deserialize, Clone)]
     struct PlainTrigger(u8);
 
+    /// What the server's game logic saw from the bystander client (events and triggers with the marker values).
+    #[derive(Resource, Default)]
+    struct Seen { bystander: Option<Entity>, plain: usize, entity: usize, trigger: usize }
+    const MARK_PLAIN: u16 = 0xBEEF;
+    const MARK_TRIGGER: u8 = 0xA7;
+
+    fn count_events(mut seen: ResMut<Seen>, mut plain: EventReader<FromClient<PlainEvent>>, mut entity: EventReader<FromClient<EntityEvent>>) {
+        for e in plain.read() { if Some(e.client) == seen.bystander && e.event.0 == MARK_PLAIN { seen.plain += 1; } }
+        for e in entity.read() { if Some(e.client) == seen.bystander { seen.entity += 1; } }
+    }
+    fn count_triggers(t: Trigger<FromClient<PlainTrigger>>, mut seen: ResMut<Seen>) {
+        if Some(t.client) == seen.bystander && t.event.0 == MARK_TRIGGER { seen.trigger += 1; }
+    }
+
     fn quiet<R>(f: impl FnOnce() -> R) -> Result<R, String> {
         std::panic::catch_unwind(std::panic::AssertUnwindSafe(f)).map_err(|p| {
             p.downcast_ref::<&str>().map(|s| String::from(*s)).or_else(|| p.downcast_ref::<String>().cloned()).unwrap_or_default()
@@ -49,11 +65,19 @@ mod verif_search_r {
         .add_client_event::<PlainEvent>(Channel::Ordered)
         .add_mapped_client_event::<EntityEvent>(Channel::Unordered)
         .add_client_trigger::<PlainTrigger>(Channel::Ordered)
+        .init_resource::<Seen>()
+        .add_systems(Update, count_events)
+        .add_observer(count_triggers)
         .finish();
         app
     }
 
-    struct Setup { server: App, client: App, authorized: Entity, unauthorized: Entity, channels: usize }
+    struct Setup {
+        server: App, client: App, authorized: Entity, unauthorized: Entity, channels: usize,
+        /// per client channel: a VALID message of the bystander (produced by a real client app through the public API)
+        valid: Vec<Option<Vec<u8>>>,
+        bystander: Entity,
+    }
 
     fn setup() -> Setup {
         let mut server = new_app();
@@ -66,15 +90,53 @@ mod verif_search_r {
         server.update();
         assert!(server.world().get::<AuthorizedClient>(unauthorized).is_none(), "harness: the second client must stay unauthorized");
         let channels = server.world().resource::<RepliconChannels>().client_channels().len();
-        Setup { server, client, authorized, unauthorized, channels }
+        // the bystander: a second real client app, authorized through the handshake; its valid messages are recorded once
+        let mut other = new_app();
+        server.connect_client(&mut other);
+        let bystander = **other.world().resource::<TestClientEntity>();
+        assert!(server.world().get::<AuthorizedClient>(bystander).is_some(), "harness: the bystander should be authorized");
+        server.world_mut().resource_mut::<Seen>().bystander = Some(bystander);
+        let target = server.world_mut().spawn_empty().id();
+        other.world_mut().send_event(PlainEvent(MARK_PLAIN));
+        other.world_mut().send_event(EntityEvent(target));
+        other.world_mut().client_trigger(PlainTrigger(MARK_TRIGGER));
+        other.update();
+        let mut valid: Vec<Option<Vec<u8>>> = std::vec![None; channels];
+        for (ch, m) in other.world_mut().resource_mut::<RepliconClient>().drain_sent() {
+            if ch != 0 && ch < channels { valid[ch] = Some(m.to_vec()); }
+        }
+        // the mapped event is only sent for entities the client knows; its wire form is the plain postcard encoding
+        let mut entity_bytes = Vec::new();
+        crate::shared::postcard_utils::to_extend_mut(&EntityEvent(target), &mut entity_bytes).unwrap();
+        if let Some(slot) = valid.iter_mut().skip(2).find(|v| v.is_none()) { *slot = Some(entity_bytes); }
+        assert!(valid.iter().filter(|v| v.is_some()).count() >= 3, "harness: expected valid bystander messages on three channels, got {valid:?}");
+        let mut s = Setup { server, client, authorized, unauthorized, channels, valid, bystander };
+        // calibration: without garbage the two marker messages of a frame arrive on every marked channel
+        for ch in 0..channels {
+            if let Err(why) = feed(&mut s, false, ch, &[]) { panic!("harness calibration failed on channel {ch}: {why}"); }
+        }
+        s
     }
 
     /// Delivers `messages` from one client on one channel in one frame. `Err(panic message)` if the frame panics.
     fn feed(s: &mut Setup, from_authorized: bool, channel: usize, messages: &[Vec<u8>]) -> Result<(), String> {
         let who = if from_authorized { s.authorized } else { s.unauthorized };
+        let marker = s.valid[channel].clone();
+        let before = { let seen = s.server.world().resource::<Seen>(); seen.plain + seen.entity + seen.trigger };
         let mut server = s.server.world_mut().resource_mut::<RepliconServer>();
+        if let Some(m) = &marker { server.insert_received(s.bystander, channel, m.clone()); }
         for m in messages { server.insert_received(who, channel, m.clone()); }
-        quiet(|| s.server.update())
+        if let Some(m) = &marker { server.insert_received(s.bystander, channel, m.clone()); }
+        quiet(|| s.server.update())?;
+        // F: the bystander's two valid messages of this frame reached the game logic
+        if marker.is_some() {
+            let seen = s.server.world().resource::<Seen>();
+            let got = seen.plain + seen.entity + seen.trigger - before;
+            if got != 2 {
+                return Err(format!("[no panic] {got} of the 2 valid messages another authorized client sent on the same channel in the same frame reached the server's game logic - a malformed message must be discarded without affecting anything else"));
+            }
+        }
+        Ok(())
     }
 
     /// S: the server still serves the authorized client.
@@ -103,7 +165,7 @@ mod verif_search_r {
         let mut s = match quiet(setup) { Ok(s) => s, Err(p) => return Some(format!("harness setup panicked: {p}")) };
         if channel >= s.channels { return Some(format!("harness: channel {channel} is not registered ({} client channels)", s.channels)); }
         if let Err(p) = feed(&mut s, from_authorized, channel, &[msg.to_vec()]) {
-            return Some(format!("the server panicked in the frame that received the message: {p}"));
+            return Some(if p.starts_with("[no panic]") { p } else { format!("the server panicked in the frame that received the message: {p}") });
         }
         still_serving(&mut s, 7)
     }
